@@ -67,6 +67,26 @@ Ltac Zify.zify_post_hook ::= Z.div_mod_to_equations.
 Lemma land_ones_mod : forall x k, N.land x (N.ones k) = x mod 2 ^ k.
 Proof. intros. apply N.land_ones. Qed.
 
+(* leading_zeros: 64 - N.size n; the byte thresholds of N.size *)
+Lemma size_le_iff : forall n k, N.size n <= k <-> n < 2 ^ k.
+Proof.
+  intros n k. destruct (N.eq_dec n 0) as [->|Hn].
+  - cbn. split; intros _; [apply N.neq_0_lt_0, N.pow_nonzero; discriminate | lia].
+  - rewrite N.size_log2 by assumption. rewrite N.log2_lt_pow2 by lia. lia.
+Qed.
+Lemma size_bytes : forall n,
+  (N.size n <= 8 <-> n < 256) /\ (N.size n <= 16 <-> n < 65536) /\ (N.size n <= 24 <-> n < 16777216) /\
+  (N.size n <= 32 <-> n < 4294967296) /\ (N.size n <= 40 <-> n < 1099511627776) /\
+  (N.size n <= 48 <-> n < 281474976710656) /\ (N.size n <= 56 <-> n < 72057594037927936) /\
+  (N.size n <= 64 <-> n < 18446744073709551616).
+Proof. intros n. repeat split; intros H; first [apply (size_le_iff n _) in H; exact H | apply (size_le_iff n _); exact H]. Qed.
+Ltac size_facts :=
+  repeat match goal with
+  | |- context [N.size ?n] =>
+    lazymatch goal with | _ : (N.size n <= 8 <-> _) |- _ => fail | _ => idtac end;
+    let H := fresh "Hsz" in pose proof (size_bytes n) as H; destruct H as (?&?&?&?&?&?&?&?)
+  end.
+
 Ltac tie_reduce := cbv beta iota zeta delta [andb orb negb bind].
 Ltac tie_case :=
   match goal with
@@ -85,4 +105,4 @@ Ltac bound_muls :=
 Ltac tie_leaf :=
   first [ reflexivity | exfalso; lia | lia | apply f_equal; lia | do 2 apply f_equal; lia ].
 Ltac tie_arith :=
-  tie_reduce; bound_muls; repeat (tie_case; try (exfalso; lia)); tie_leaf.
+  tie_reduce; size_facts; bound_muls; repeat (tie_case; try (exfalso; lia)); tie_leaf.
